@@ -1,4 +1,5 @@
 (* Props/C08.v — property C08: fail-fast. *)
+From CV Require Proofs.FramingP.
 From CV Require Proofs.Compose2 Model.StatsSpec.
 From CV Require Proofs.SchedP12.
 From CV Require Import Model.Base Model.Events Model.Contract Model.Sched Proofs.BaseP Proofs.SchedP Proofs.SchedP2 Proofs.SchedP3
@@ -90,3 +91,31 @@ Theorem C08_final_failure_trips_the_next_drain :
     forall fl fc rc, snd (fst (fst (drain true (msgs s2) fl fc rc))) = Break.
 Proof. exact Compose2.final_failure_trips_fail_fast. Qed.
 Print Assumptions C08_final_failure_trips_the_next_drain.
+
+
+(* ---------- "after the first parser error no later feature is ingested" (review finding M5) ---------- *)
+Theorem C08_no_feature_is_ingested_after_a_parser_error :
+  forall c l1 i l2 s tr,
+    cf_fail_fast c = true -> exec c (l1 ++ LParseErr i :: l2) = Some (s, tr) ->
+    Forall (fun l => match l with LFeature _ => False | _ => True end) l2.
+Proof. exact FramingP.C08_no_feature_after_parse_error. Qed.
+Print Assumptions C08_no_feature_is_ingested_after_a_parser_error.
+
+(* on the stream: ParsingFinished counts exactly the features delivered BEFORE the error and one parser error, and every
+   bracket and scenario event belongs to one of those features *)
+Theorem C08_parsing_finished_counts_only_what_came_before_the_error :
+  forall c l1 i l2 s tr a b c0 d e,
+    cf_fail_fast c = true -> exec c (l1 ++ LParseErr i :: l2) = Some (s, tr) ->
+    In (EvParsingFinished a b c0 d e) tr ->
+    (a, b, c0, d, e) = (N.of_nat (length (FramingP.feats_of l1)), SchedP8.sumN sf_nrules (FramingP.feats_of l1),
+                        SchedP8.sumN scens_of_feature (FramingP.feats_of l1),
+                        SchedP8.sumN sf_nsteps (FramingP.feats_of l1), 1).
+Proof. exact FramingP.failfast_parsing_finished_counts. Qed.
+Print Assumptions C08_parsing_finished_counts_only_what_came_before_the_error.
+
+Theorem C08_only_features_before_the_error_run :
+  forall c l1 i l2 s tr,
+    cf_fail_fast c = true -> exec c (l1 ++ LParseErr i :: l2) = Some (s, tr) ->
+    forall x, In x tr -> FramingP.ev_feat_in (map sf_id (FramingP.feats_of l1)) x.
+Proof. exact FramingP.failfast_only_early_features_run. Qed.
+Print Assumptions C08_only_features_before_the_error_run.
